@@ -509,6 +509,8 @@ class C11(Prop):
         with LocalCapture() as cap:
             try:
                 discr.discretize(g, data)
+                if case.get("update"):
+                    run_update(discr, g, data, KW, case["update"])
             except ValueError as e:
                 if "inversion of local linear systems" not in str(e):
                     raise
@@ -516,8 +518,6 @@ class C11(Prop):
                 # collinear cell and boundary-face centres): the code refuses to discretize
                 return {"error": "singular-local-system", "nc": int(g.num_cells),
                         "nf": int(g.num_faces)}
-            if case.get("update"):
-                run_update(discr, g, data, KW, case["update"])
         local = cap.local_systems() if case.get("local", True) else None
         inv = cap.inverse_pair() if case.get("inv") else None
         md = data[pp.DISCRETIZATION_MATRICES][KW]
